@@ -824,6 +824,9 @@ def coq_group(g, comp, observed, gi, full=False):
     orc0 = "(mkOracle [] [] [] [])"
     ops = []
     for s in g["setup"]:
+        if s.get("cancel_only"):
+            ops.append("(Manage (%d)%%Z MCancel [RPlain %d%%N], %s)" % (g["now"], gen.id_num(s["id"]), orc0))
+            continue
         e = "(mkEnq (Some %d%%N) %d%%N %d%%N (Some (%d)%%Z) None %d%%N %d%%N 0%%N)" % (
             gen.id_num(s["id"]), RNUM[s["route"]], TARGETS[s["target"]], s["recv"],
             hash_bytes(base64.b64decode(s["payload_b64"])), hash_smap(s["headers"]))
